@@ -41,6 +41,14 @@ let handle cmd =
     let m = wps_matrix u s1 s2 in
     let p = best_path_model m (adj_penalty u) (nat_of_int i) (nat_of_int j) in
     String.concat " " (List.map (fun (a, b) -> string_of_int (int_of_nat a) ^ "," ^ string_of_int (int_of_nat b)) p)
+  | "pairs" -> let n = z_of_int (nint ()) in let some = nint () = 1 in
+    let rb = z_of_int (nint ()) in let re = z_of_int (nint ()) in let cb = z_of_int (nint ()) in
+    let ce = z_of_int (nint ()) in let notriu = nint () = 1 in
+    let blk = { b_some = some; b_rows = (rb, re); b_cols = (cb, ce); b_notriu = notriu } in
+    string_of_int (int_of_z (gen_length n blk)) ^ " | " ^
+    String.concat " " (List.map (fun (a, b) -> string_of_int (int_of_z a) ^ "," ^ string_of_int (int_of_z b)) (pairs n blk))
+  | "cidx" -> let a = z_of_int (nint ()) in let b = z_of_int (nint ()) in let n = z_of_int (nint ()) in
+    (match py_distance_array_index a b n with None -> "none" | Some z -> string_of_int (int_of_z z))
   | "ed" -> let inner = if nint () = 0 then SqEuclid else AbsDiff in
     let s1 = rd_series () in let s2 = rd_series () in
     string_of_int (int_of_z (ed_model inner s1 s2))
